@@ -65,7 +65,7 @@ def generate(rng, tier, index):
         niter = 20 if (index % 2 == 0) else 5
     else:
         k, mn = rng.choice(CONFIGS)
-        niter = rng.choice([5, 20])
+        niter = rng.choice([1, 5, 20])
         lo, hi = (1, 9) if tier == "quick" else (6, 12)
         length = rng.randint(lo, hi)
         hist = [rng.choice([0, 1, 2, 0, 1, 2, "R"]) for _ in range(length)]
